@@ -8,6 +8,7 @@ import guards
 CLAIMS = ("R1 each leaf predicate eval_range{,_i32,_f64,_str}, evaluated abstractly over every ordering of (min <= x <= max, literal), returns true whenever some x in [min,max] satisfies `x op literal`, and definite_comparison's final test returns true only when every x in [min,max] does; the f64 variants are also evaluated with NaN (Arrow total order for the row semantics); "
           "R2 no statistic bound or literal passes through a lossy cast (i64->i32, i64->f64) on its way into a comparison; "
           "R3 every 'cannot tell' fall-through answers conservatively: true in row_group_might_match/check_comparison/check_*_stats, false in row_group_definitely_matches/definite_comparison; And->&&, Or->|| in both, Not -> !definitely; "
+          "R5 the comparison helpers consult the column's logical type before using integer statistics (DECIMAL columns carry unscaled integers); "
           "R4 definite_comparison's comparisons are dominated by the `null_count_opt() != Some(0) => false` refusal.")
 NOT_DECIDED = "that the statistics in a file are themselves correct; UTF-8 truncation of byte-array statistics by writers."
 
@@ -218,6 +219,13 @@ def run(F, R):
             if rv[0] == "un" and rv[1] == "Not" and origin(mm, rv[2]) == ("call", c) and dst == "0":
                 okn = True
     R.check(okn, "C05.R3", "might_match:Not=!definitely", "NOT p is not answered by !definitely_matches(p)", mm.loc(), dict(calls=len(nots)))
+    # ---------------- R5 logical-type awareness: Parquet stores DECIMAL(p,s) columns as unscaled INT32/INT64 statistics
+    R.rule("C05.R5", "K2 co-occurrence", "a function that compares integer statistics with a literal consults the column's logical (Arrow/Parquet) type first, so unscaled decimal statistics are never compared with a plain integer literal")
+    for nm in ("check_comparison", "definite_comparison"):
+        g = F.fn(P + "::" + nm)
+        fam = F.family(g.path)
+        consults = any(c.name.rsplit("::", 1)[-1] in ("data_type", "logical_type", "converted_type", "column_descr", "scale", "precision") for h in fam for c in h.calls())
+        R.check(consults, "C05.R5", f"{nm}:logical-type-consulted", "integer statistics are compared with the literal without looking at the column's logical type: a DECIMAL column (unscaled integer statistics) compared with an integer literal is pruned/declared matching at the wrong scale", g.loc(), dict())
     # ---------------- R4
     cmp_blocks = [i for i, j, dst, rv, line in d.stmts() if rv[0] == "bin" and rv[1] in ("Lt", "Le", "Gt", "Ge", "Eq", "Ne") and rv[4] == "f64"]
     cmp_blocks += [c.bb for c in d.calls() if c.name == P + "::definite_range"]
